@@ -208,17 +208,18 @@ def scenario_params(tier):
 
 def run(ctx):
     bound = 1 if ctx.quick else 2
+    in_core = (lambda params: True) if ctx.quick else H.core_scenarios(scenario_params)
     specs = []
     for params in scenario_params(ctx.tier):
         spinners = params.get("bystanders") == "spinners"
         double = bool(params.get("second"))
         specs.append({
             "module": "checks.c01", "params": params,
-            "bound": bound + (1 if double and ctx.quick else 0),
+            "bound": (bound if in_core(params) else 1) + (1 if double and ctx.quick else 0),
             "opts": {"spin_time": 0.05 if spinners else 0.0, "time_horizon": 30.0,
                      "drain": 5.0, "max_points": 6000, "free_switch_cost": 1,
                      "time_jump_cost": None if ctx.quick else 1},
-            "budget": 4000 if ctx.quick else 60000,
+            "budget": 4000 if ctx.quick else 30000,
         })
     if not ctx.quick:
         specs += H.line_variants(
